@@ -24,6 +24,8 @@ ENTRY = "header.SOMEIPSDEntry"
 
 
 def check(run, prog, tier):
+    from . import model as _model
+    _model.audit(run, prog, 'C11')
     run.explanation = (
         "Path-effect summaries: every path of the two handle_subscribe functions (store refresh and the nack "
         "helper spliced in, listener rejection injected as NakSubscription) is listed with its return value and "
